@@ -232,6 +232,49 @@ Section Emit.
     all: try solve [left; reflexivity].
     all: try (destruct (e0 eq_refl) as [A0 _]; specialize (A0 _ eq_refl)).
     all: try solve [congruence].
-    all: match goal with |- ?G => idtac "GOAL" G end.
-  Abort.
+    - (* level above the max level *)
+      destruct (ci _ eq_refl) as [Hi Hl]. destruct (m5 _ Hi Hl) as [f [Hf Hh]]. split.
+      + exists f. split; auto. unfold verdict. erewrite low_hint_rejects; eauto.
+      + intros Hq. apply andb_true_iff in Hq. destruct Hq as [Hq _]. apply negb_true_iff in Hq.
+        unfold vals_now. rewrite qi by auto. intros f0 [<-|[]]. reflexivity.
+    - (* cached never *)
+      destruct (ci _ A0) as [Hi Hl].
+      match goal with Hca : st_cache _ _ = Some INever |- _ => destruct (m3 _ _ _ Hca Hi Hl) as [[_ B] _] end.
+      destruct (B eq_refl) as [f [Hf Hint]]. split.
+      + exists f. split; auto. unfold verdict. rewrite never_rejects; auto.
+      + intros Hq. apply andb_true_iff in Hq. destruct Hq as [Hq Hep]. apply Nat.eqb_eq in Hep.
+        unfold vals_now. rewrite qi by (apply q1; auto). intros f0 [<-|[]]. reflexivity.
+    - destruct (ci _ A0) as [Hi Hl].
+      match goal with Hca : st_cache _ _ = Some INever |- _ => destruct (m3 _ _ _ Hca Hi Hl) as [[_ B] _] end.
+      destruct (B eq_refl) as [f [Hf Hint]]. split.
+      + exists f. split; auto. unfold verdict. rewrite never_rejects; auto.
+      + intros Hq. apply andb_true_iff in Hq. destruct Hq as [Hq Hep]. apply Nat.eqb_eq in Hep.
+        unfold vals_now. rewrite qi by (apply q1; auto). intros f0 [<-|[]]. reflexivity.
+    - (* the collector's own enabled() said no *)
+      rewrite (e2 _ _ Hlt0 eq_refl) in A0. inversion A0; subst. split.
+      + eexists. split; [left; reflexivity|]. unfold verdict. rewrite accepts_enabled by exact WF.
+        match goal with Hen : w_enabled _ _ _ = false |- _ => rewrite Hen end. reflexivity.
+      + intros _ f0 [<-|[]]. reflexivity.
+    - (* delivery *)
+      rewrite A0. split.
+      + destruct (e1 _ _ Hlt0 eq_refl) as [f [Hf Ha]]; [right; congruence|].
+        exists f. split; auto. unfold verdict. rewrite Ha. reflexivity.
+      + intros Hq. apply andb_true_iff in Hq. destruct Hq as [Hq Hep]. apply Nat.eqb_eq in Hep.
+        intros f0 Hf0. simpl. f_equal. symmetry. eapply q2; eauto.
+    - destruct (cur s t) as [g|]; [right|left; reflexivity]. exists g. split; auto.
+      match goal with Hp : th_pc _ = PEmDispatch _ ?b |- _ => destruct b end.
+      + right. eapply e3; eauto.
+      + left. apply (e1 _ _ Hlt0 eq_refl). left. reflexivity.
+  Qed.
+
+  Theorem InvE_step : forall s t s', InvG s -> InvM W s -> InvE W s -> step W s t = Some s' -> InvE W s'.
+  Proof.
+    intros s t s' IG IM IE H. constructor.
+    - eapply E0_step; eauto.
+    - eapply E1_step; eauto.
+    - eapply E2_step; eauto.
+    - eapply E3_step; eauto.
+    - eapply Q2_step; eauto.
+    - eapply ELog_step; eauto.
+  Qed.
 End Emit.
